@@ -5619,3 +5619,75 @@ func ruleWorkerSignsOffOnce(r *Run) {
 	}
 	r.check(n >= 10, "repo:workers-with-a-waitgroup", fmt.Sprintf("%d", n), "too few: rule needs review", "-")
 }
+
+// ---------------------------------------------------------------------------------------------
+// R20.66 — a worker signs off on every exit
+
+func init() {
+	register(ruleDef{ID: "R20.66", Prop: "C20", Tier: "quick", Floor: 1,
+		Title: "a worker signs off on every exit: in the datastore, server, storage and datatype packages, a function that receives a *sync.WaitGroup and signs off on it once per call (a Done outside every loop, or a deferred one) passes a Done on every path to a return — a worker that returns early on an error leaves the request (or the start-up) that waits for it blocked for ever",
+		Fn:    ruleWorkerSignsOffOnEveryExit})
+}
+
+func ruleWorkerSignsOffOnEveryExit(r *Run) {
+	w := r.W
+	n := 0
+	for _, f := range w.RepoFuncs {
+		if len(f.Blocks) == 0 || isTestFunc(w, f) {
+			continue
+		}
+		p := relPkg(pkgPathOf(f))
+		if !(strings.HasPrefix(p, "datatype/") || p == "datastore" || p == "server" || strings.HasPrefix(p, "storage")) {
+			continue
+		}
+		for _, prm := range f.Params {
+			if prm.Type().String() != "*sync.WaitGroup" {
+				continue
+			}
+			deferred := false
+			var outLoop []ssa.Instruction
+			isDone := func(x ssa.Instruction) bool {
+				c, ok := x.(ssa.CallInstruction)
+				if !ok {
+					return false
+				}
+				callee := staticCallee(c)
+				return callee != nil && callee.Name() == "Done" && callee.Pkg != nil && callee.Pkg.Pkg.Path() == "sync" && len(c.Common().Args) > 0 && c.Common().Args[0] == ssa.Value(prm)
+			}
+			for _, c := range calls(f) {
+				if !isDone(c) {
+					continue
+				}
+				if _, isDefer := c.(*ssa.Defer); isDefer {
+					deferred = true
+					continue
+				}
+				if _, set, _ := innermostLoop(f, c.Block()); set == nil {
+					outLoop = append(outLoop, c)
+				}
+			}
+			// deferred closures that call Done
+			for _, c := range calls(f) {
+				if d, isDefer := c.(*ssa.Defer); isDefer {
+					if mc, ok := d.Call.Value.(*ssa.MakeClosure); ok {
+						if cl, ok := mc.Fn.(*ssa.Function); ok {
+							for _, c2 := range calls(cl) {
+								if callee := staticCallee(c2); callee != nil && callee.Name() == "Done" && callee.Pkg != nil && callee.Pkg.Pkg.Path() == "sync" {
+									deferred = true
+								}
+							}
+						}
+					}
+				}
+			}
+			if deferred || len(outLoop) == 0 {
+				continue
+			}
+			n++
+			pth := findPath(f, nil, isDone, func(x ssa.Instruction) bool { _, isRet := x.(*ssa.Return); return isRet }, nil)
+			r.check(pth == nil, fname(f)+":"+prm.Name()+":done-on-every-exit", "every path to a return passes the Done",
+				"the worker can return without calling Done() on the WaitGroup its starter waits on: after an early error return the waiting request — or the server's start-up — blocks for ever", w.fpos(f), w.renderPath(pth)...)
+		}
+	}
+	r.check(n >= 5, "repo:per-call-workers", fmt.Sprintf("%d", n), "too few: rule needs review", "-")
+}
